@@ -226,6 +226,7 @@ class Check(PropertyCheck):
         for _ in range(rng.randint(0, 3)):
             k = b"".join(rng.pick(MP_ALPHA) for _ in range(rng.randint(0, 2)))
             if rng.chance(0.85): k = bytes(c for c in k if c not in b'"\r\n') or b"field"
+            elif b'"' in k and any(c in k for c in b"\r\n"): k = k.replace(b"\r", b"").replace(b"\n", b"")
             v = b"".join(rng.pick(MP_ALPHA) for _ in range(rng.randint(0, 4)))
             if rng.chance(0.6): v = v.replace(b"\r", b"").replace(b"\n", b"")
             out.append([hx(k), hx(v)])
@@ -507,7 +508,7 @@ class Check(PropertyCheck):
             if all(c != "" for c in case["comps"]) and obs["back"] != case["comps"]:
                 fails.append("path: %r reads back as %r (path %r)" % (case["comps"], obs["back"], obs["path"]))
             if obs["path2"] != obs["path"]:
-                fails.append("path-writeback[%s]: path %r became %r" % ("empty-segment" if self._empty_segment(obs["path"]) else "other", obs["path"], obs["path2"]))
+                fails.append("path-writeback[%s]: path %r became %r" % (self._wb_tag("path_components", obs["path"], meaning(obs["path"]), meaning(obs["path2"])), obs["path"], obs["path2"]))
             if obs["q1"] != obs["q0"] or obs["q0"] != ref_query(case["path0"]):
                 fails.append("path: query changed from %r (target %r) to %r" % (obs["q0"], case["path0"], obs["q1"]))
             m0, m1 = meaning(case["path0"]), meaning(obs["path"])
@@ -541,27 +542,153 @@ class Check(PropertyCheck):
 
     @staticmethod
     def _mp_tag(case, obs, parts, bnd):
+        """label for the failure text only; known() re-derives everything from the case and the observation"""
         if _uq(bnd).encode() != bnd: return "boundary-escaped"
         if any(c in kk for kk, _ in parts for c in b'"\r\n'): return "key-quote-or-linebreak"
         if any(c in vv for _, vv in parts for c in b"\r\n"): return "value-linebreak"
         return "other"
 
-    def known(self, case, obs, failure):
-        if failure.startswith("multipart[value-linebreak]") or failure.startswith("multipart-writeback[value-linebreak]"): return "F-C34a"
-        if failure.startswith("multipart[key-quote-or-linebreak]") or failure.startswith("multipart-writeback[key-quote-or-linebreak]"): return "F-C34b"
-        if failure.startswith("setcookie-writeback"):
-            view = obs.get("back") if case["k"] == "setcookie" else obs.get("view")
-            for n, v, attrs in view or []:
-                for kk, vv in [(n, v)] + [tuple(a) for a in attrs]:
-                    if vv is not None and kk.lower() in ("expires", "path") and \
-                            (any(c in vv for c in ";,") or vv.startswith('"') or (kk.lower() == "expires" and len(vv) <= 3)):
-                        return "F-C34f"
-            return None
-        if failure.startswith("path-writeback[empty-segment]") or failure.startswith("wb-path_components[empty-segment]"): return "F-C34d"
-        if failure.startswith("wb-query[asterisk]") or failure.startswith("wb-path_components[asterisk]"): return "F-C34g"
-        if failure.startswith("form[empty-pair-bare-style]") or failure.startswith("form-writeback[empty-pair-bare-style]"): return "F-C34e"
-        if failure.startswith("multipart[boundary-escaped]") or failure.startswith("multipart-writeback[boundary-escaped]"): return "F-C34c"
+    # ---- exact classifiers: each returns a finding id only when the observed read-back is the one the recorded defect predicts ----
+    @staticmethod
+    def _mp_predict_part(k, v):
+        """what decode_multipart is recorded to return for one written part (F-C34a: line breaks of the value dropped; F-C34b: key cut
+        at the first double quote, a key with a line break loses the part); None = no recorded prediction for this shape"""
+        v2 = b"".join(v.splitlines())
+        q, lb = b'"' in k, any(c in k for c in b"\r\n")
+        if not q and not lb: return [(k, v2)]
+        if q and not lb:
+            # the key is written verbatim into  Content-Disposition: form-data; name="<key>"  and read with the name regex
+            import re
+            m = re.search(rb'\bname="([^"]+)"', b'Content-Disposition: form-data; name="' + k + b'"')
+            return [(m.group(1), v2)] if m else []
+        if lb and not q: return []
         return None
+
+    def _mp_explain(self, src, got, bnd):
+        if bnd is None or any(kk == b"" or (b"--" + bnd) in kk or (b"--" + bnd) in vv for kk, vv in src): return None
+        if _uq(bnd).encode() != bnd:
+            return "F-C34c" if (got == [] and src) else None            # recorded: every assigned form reads back empty
+        preds = [self._mp_predict_part(kk, vv) for kk, vv in src]
+        if any(p is None for p in preds): return None
+        flat = [x for p in preds for x in p]
+        if got != flat or flat == src: return None
+        return "F-C34b" if any(c in kk for kk, _ in src for c in b'"\r\n') else "F-C34a"
+
+    @staticmethod
+    def _sc_offending(k, v):
+        return v is not None and k.lower() in ("expires", "path") and \
+            (any(c in v for c in ";,") or v.startswith('"') or (k.lower() == "expires" and len(v) <= 3))
+
+    def _sc_explain(self, view, view2):
+        """F-C34f exactly: written back cookie by cookie (one header each), every cookie without an offending expires/path value reads back
+        as itself, an offending one keeps its pairs up to the offending pair, and the whole view is the concatenation of those"""
+        out, offended = [], False
+        for n, v, attrs in view:
+            pairs = [(n, v)] + [tuple(a) for a in attrs]
+            hdr = nck.format_set_cookie_header([(n, v, nck.CookieAttrs([tuple(a) for a in attrs]))])
+            back = [[c[0], c[1], [[a, b] for a, b in c[2].fields]] for c in nck.parse_set_cookie_header(hdr)]
+            idx = next((i for i, (kk, vv) in enumerate(pairs) if self._sc_offending(kk, vv)), None)
+            if idx is None:
+                if back != [[n, v, [list(a) for a in attrs]]]: return None
+            else:
+                offended = True
+                if not back: return None
+                first = [(back[0][0], back[0][1])] + [tuple(a) for a in back[0][2]]
+                if first[:idx] != pairs[:idx]: return None
+            out += back
+        return "F-C34f" if offended and out == view2 else None
+
+    def known(self, case, obs, failure):
+        k = case["k"]
+        if k == "multipart" and obs.get("set") == "ok" and (failure.startswith("multipart[") or failure.startswith("multipart-writeback[")):
+            wb = failure.startswith("multipart-writeback[")
+            got = obs["back2"] if wb else obs["back"]
+            if got == "ValueError": return None
+            src = [(unhx(a), unhx(b)) for a, b in (obs["back"] if wb else case["parts"])]
+            return self._mp_explain(src, [(unhx(a), unhx(b)) for a, b in got], self._boundary(obs["ct2"]))
+        if failure.startswith("setcookie-writeback") and k in ("setcookie", "setcookiehdr"):
+            view, view2 = (obs["back"], obs["back2"]) if k == "setcookie" else (obs["view"], obs["view2"])
+            return self._sc_explain(view, view2)
+        if k == "path" and failure.startswith("path-writeback["):
+            m0, m1 = meaning(obs["path"]), meaning(obs["path2"])
+            return "F-C34d" if self._wb_tag("path_components", obs["path"], m0, m1) == "empty-segment" else None
+        if k == "wb" and failure.startswith("wb-path_components["):
+            st = obs["after"]["path_components"]
+            if "exc" in st: return None
+            if case["path0"] == "*": return "F-C34g" if st["path"] == "/" else None
+            m0, m1 = meaning(case["path0"]), meaning(st["path"])
+            return "F-C34d" if self._wb_tag("path_components", case["path0"], m0, m1) == "empty-segment" else None
+        if k == "wb" and failure.startswith("wb-query["):
+            st = obs["after"]["query"]
+            return "F-C34g" if case["path0"] == "*" and "exc" not in st and st["path"] == "" else None
+        if k in ("form", "formwb") and (failure.startswith("form[") or failure.startswith("form-writeback[")):
+            if k == "form" and not failure.startswith("form["): return None
+            pairs, back = (case["pairs"], obs["back"]) if k == "form" else (obs["v0"], obs["v1"])
+            bare = bool(obs["text0"]) and any("=" not in p for p in obs["text0"].split("&"))
+            return "F-C34e" if bare and ["", ""] in pairs and [p for p in pairs if p != ["", ""]] == back else None
+        return None
+
+    def known_selftest(self):
+        """near-miss triples for every classifier (frozen observations: independent of the tree under test)"""
+        H = lambda b: hx(b)
+        mp = lambda parts, back, back2=None, ct="multipart/form-data; boundary=XX": (
+            {"k": "multipart", "ct": ct, "parts": [[H(a), H(b)] for a, b in parts], "body0": None},
+            {"set": "ok", "ct2": ct, "body_hex": "-", "back": [[H(a), H(b)] for a, b in back],
+             "back2": [[H(a), H(b)] for a, b in (back if back2 is None else back2)]})
+        T = []
+        # F-C34a: line breaks dropped — and only that
+        T.append((*mp([(b"k", b"l1\r\nl2")], [(b"k", b"l1l2")]), "multipart[value-linebreak]: x", "F-C34a"))
+        T.append((*mp([(b"k", b"l1\r\nl2")], [(b"k", b"l1")]), "multipart[value-linebreak]: x", None))            # same class, other loss
+        T.append((*mp([(b"k", b"l1\r\nl2"), (b"j", b"w")], [(b"k", b"l1l2")]), "multipart[value-linebreak]: x", None))   # part lost
+        T.append((*mp([(b"k", b"l1 l2")], [(b"k", b"l1l2")]), "multipart[other]: x", None))                         # outside the class
+        # F-C34b: key cut at the quote / part with a broken key dropped
+        T.append((*mp([(b'k"q', b"v")], [(b"k", b"v")]), "multipart[key-quote-or-linebreak]: x", "F-C34b"))
+        T.append((*mp([(b"a\r\nb", b"v"), (b"c", b"d")], [(b"c", b"d")]), "multipart[key-quote-or-linebreak]: x", "F-C34b"))
+        T.append((*mp([(b'k"q', b"v")], [(b"k", b"")]), "multipart[key-quote-or-linebreak]: x", None))              # value lost too
+        T.append((*mp([(b"kq", b"v")], [(b"k", b"v")]), "multipart[other]: x", None))                               # no quote in the key
+        # F-C34c: escaped boundary → empty read-back
+        T.append((*mp([(b"k", b"v")], [], ct="multipart/form-data; boundary=a:b"), "multipart[boundary-escaped]: x", "F-C34c"))
+        T.append((*mp([(b"k", b"v")], [(b"k", b"")], ct="multipart/form-data; boundary=a:b"), "multipart[boundary-escaped]: x", None))
+        T.append((*mp([(b"k", b"v")], [], ct="multipart/form-data; boundary=XX"), "multipart[other]: x", None))
+        # F-C34d
+        T.append(({"k": "path", "comps": ["a", ""], "path0": "/p"}, {"path": "/a/", "path2": "/a"}, "path-writeback[empty-segment]: x", "F-C34d"))
+        T.append(({"k": "path", "comps": ["a", ""], "path0": "/p"}, {"path": "/a/", "path2": "/b"}, "path-writeback[empty-segment]: x", None))
+        T.append(({"k": "path", "comps": ["a"], "path0": "/p"}, {"path": "/a", "path2": "/"}, "path-writeback[other]: x", None))
+        wbobs = lambda view, path: {"after": {view: {"path": path}}}
+        T.append(({"k": "wb", "path0": "//a/b?v=1"}, wbobs("path_components", "/a/b?v=1"), "wb-path_components[empty-segment]: x", "F-C34d"))
+        T.append(({"k": "wb", "path0": "//a/b?v=1"}, wbobs("path_components", "/b?v=1"), "wb-path_components[other]: x", None))
+        T.append(({"k": "wb", "path0": "//a/b?v=1"}, wbobs("query", "/a/b?v=1"), "wb-query[other]: x", None))
+        # F-C34g
+        T.append(({"k": "wb", "path0": "*"}, wbobs("query", ""), "wb-query[asterisk]: x", "F-C34g"))
+        T.append(({"k": "wb", "path0": "*"}, wbobs("path_components", "/"), "wb-path_components[asterisk]: x", "F-C34g"))
+        T.append(({"k": "wb", "path0": "*"}, wbobs("query", "/x"), "wb-query[asterisk]: x", None))
+        T.append(({"k": "wb", "path0": "/*"}, wbobs("query", ""), "wb-query[other]: x", None))
+        T.append(({"k": "wb", "path0": "*"}, wbobs("cookies", ""), "wb-cookies[other]: x", None))
+        # F-C34e
+        fobs = lambda back, text0: {"back": back, "text0": text0, "body_hex": "-"}
+        fc = {"k": "form", "pairs": [["a", "b"], ["", ""]], "body0": "a&b=2", "ct": None}
+        T.append((fc, fobs([["a", "b"]], "a&b=2"), "form[empty-pair-bare-style]: x", "F-C34e"))
+        T.append((fc, fobs([], "a&b=2"), "form[empty-pair-bare-style]: x", None))                   # more than the empty pair lost
+        T.append((fc, fobs([["a", "b"]], "a=1&b=2"), "form[other]: x", None))                       # no bare parameter in the old body
+        T.append(({"k": "formwb", "body0": "a&=", "ct": None}, {"v0": [["a", ""], ["", ""]], "v1": [["a", ""]], "text0": "a&="},
+                  "form-writeback[empty-pair-bare-style]: x", "F-C34e"))
+        T.append(({"k": "formwb", "body0": "a=1", "ct": None}, {"v0": [["a", "1"]], "v1": [["x", ""]], "text0": "a=1"}, "form-writeback[other]: x", None))
+        # F-C34f
+        sv = [["a", "b", [["path", "/x;y"]]]]
+        T.append(({"k": "setcookiehdr", "hdrs": ['a=b; path="/x;y"']}, {"view": sv, "view2": [["a", "b", [["path", "/x"], ["y", None]]]]},
+                  "setcookie-writeback: x", "F-C34f"))
+        T.append(({"k": "setcookiehdr", "hdrs": ['a=b; path="/x;y"']}, {"view": sv, "view2": [["z", "b", [["path", "/x"], ["y", None]]]]},
+                  "setcookie-writeback: x", None))                                                   # the cookie's own name changed
+        T.append(({"k": "setcookiehdr", "hdrs": ["a=b; path=/x"]}, {"view": [["a", "b", [["path", "/x"]]]], "view2": [["a", "b", []]]},
+                  "setcookie-writeback: x", None))                                                   # no offending value in the view
+        T.append(({"k": "setcookiehdr", "hdrs": ['a=b; path="/x;y"', "c=d"]},
+                  {"view": sv + [["c", "d", []]], "view2": [["a", "b", [["path", "/x"], ["y", None]]], ["c", "D", []]]}, "setcookie-writeback: x", None))
+        for case, obs, failure, want in T:
+            got = self.known(case, obs, failure)
+            assert got == want, ("known() selftest", case, failure, "expected", want, "got", got)
+
+    def setup(self, tier):
+        self.known_selftest()
 
     # ------------------------------------------------------------------ model tie
     @staticmethod
